@@ -2030,6 +2030,10 @@ def cache_history_model(repo, depth=3):
                         if kind in ('edit', 'touch', 'restore'):
                             seq[0] += 1
                             changed_at[path] = seq[0]
+                        if kind in ('edit', 'touch', 'restore') and path not in it.fs:
+                            if kind != 'edit':
+                                continue              # nothing to touch or restore: the file was deleted
+                            it.fs.add(path)           # saving a deleted file creates it again
                         if kind == 'edit':
                             clock[0] += 0.25          # saved again within the same second
                             rev[path] += 1
@@ -2283,6 +2287,9 @@ COLUMN_TEXTS = [
     u"def f(\u03b1, beta):\n    return [\u03b1 for gamma in beta if '\u00e9' in gamma]\n",
     u"x = '\U0001f600'; import os as operating\nprint('\u00df', x, operating)\n",
     u"plain = 1; ascii_only = plain\n",
+    # a node that starts on an ASCII line and ends on a line with non-ASCII text
+    u"def f():\n    names = [1,\n        '\u00e9\u00e9\u00e9\u00e9\u00e9\u00e9']; return names\n",
+    u"from pkg import (nombre as\n    \u00f1ame)\n",
 ]
 
 
@@ -2312,6 +2319,22 @@ def column_unit_model(repo):
             except Uninterpretable as e:
                 raise AnalysisError('Source.tree is outside the interpretable subset: %s' % e)
             bad = []
+            # the end positions too (where a binding becomes visible, where an as-name stands): compared with the checker's own
+            # parse, byte columns converted to characters line by line
+            raw = text.replace('\r\n', '\n').replace('\r', '\n').split('\n')
+
+            def chars(ln, col):
+                return len(raw[ln - 1].encode('utf-8')[:col].decode('utf-8', 'ignore'))
+            ref = [n for n in _ast.walk(_ast.parse(text)) if getattr(n, 'end_col_offset', None) is not None]
+            got = [n for n in _ast.walk(tree) if getattr(n, 'end_col_offset', None) is not None]
+            if len(ref) == len(got):
+                for rn, gn in zip(ref, got):
+                    want = (rn.end_lineno, chars(rn.end_lineno, rn.end_col_offset))
+                    have = (gn.end_lineno, gn.end_col_offset)
+                    if want != have:
+                        bad.append('the end of the %s that starts at (%d, %d) is %s, the characters of the line say %s'
+                                   % (type(rn).__name__, rn.lineno, chars(rn.lineno, rn.col_offset), have, want))
+                        break
             for n in _ast.walk(tree):
                 ident = n.id if isinstance(n, _ast.Name) else n.arg if isinstance(n, _ast.arg) else None
                 if ident is None:
